@@ -73,6 +73,23 @@ func c17MakePayload(kind string, fi, n int, withAUD bool) (unit.Payload, []byte)
 			au = unit.PayloadH264{{0x09, 0xf0}, nalu}
 		}
 		return au, nalu
+	case "h264key":
+		// key frames and in-band parameter changes (round-3 seeded change C17-s3: parameter buffers reused in place, so a
+		// key frame still queued for a slow reader was rewritten by a later parameter change). Per format the units
+		// cycle: slice, [SPS_n PPS_n IDR] (parameters change, same lengths), IDR alone (gets the parameters of unit n-1).
+		sps := func(k int) []byte { return []byte{0x67, 0x42, byte(1 + k/250), byte(1 + k%250)} }
+		pps := func(k int) []byte { return []byte{0x68, byte(1 + k/250), byte(1 + k%250)} }
+		switch n % 3 {
+		case 1:
+			idr := append([]byte{0x65}, tag...)
+			au := unit.PayloadH264{sps(n), pps(n), idr}
+			return au, bytes.Join([][]byte{sps(n), pps(n), idr}, c17NALUSep)
+		case 2:
+			idr := append([]byte{0x65}, tag...)
+			return unit.PayloadH264{idr}, bytes.Join([][]byte{sps(n - 1), pps(n - 1), idr}, c17NALUSep)
+		}
+		nalu := append([]byte{0x41}, tag...)
+		return unit.PayloadH264{nalu}, nalu
 	case "av1":
 		obu := append([]byte{0x30}, tag...) // OBU_FRAME
 		tu := unit.PayloadAV1{obu}
@@ -93,13 +110,15 @@ func c17MakePayload(kind string, fi, n int, withAUD bool) (unit.Payload, []byte)
 	}
 }
 
+var c17NALUSep = []byte{0xff, 0x00, 0x00, 0x01, 0xff}
+
 func c17Flatten(p unit.Payload) ([]byte, error) {
 	switch v := p.(type) {
 	case unit.PayloadH264:
-		if len(v) != 1 {
-			return nil, fmt.Errorf("access unit with %d NAL units: %x", len(v), [][]byte(v))
+		if len(v) == 0 {
+			return nil, fmt.Errorf("empty access unit")
 		}
-		return v[0], nil
+		return bytes.Join(v, c17NALUSep), nil
 	case unit.PayloadAV1:
 		if len(v) != 1 {
 			return nil, fmt.Errorf("temporal unit with %d OBUs: %x", len(v), [][]byte(v))
@@ -124,6 +143,8 @@ func c17NewFormat(kind string, pt uint8) format.Format {
 	switch kind {
 	case "h264":
 		return &format.H264{PayloadTyp: pt, PacketizationMode: 1}
+	case "h264key":
+		return &format.H264{PayloadTyp: pt, PacketizationMode: 1, SPS: []byte{0x67, 0x42, 0x00, 0x00}, PPS: []byte{0x68, 0x00, 0x00}}
 	case "av1":
 		return &format.AV1{PayloadTyp: pt}
 	case "vp8":
@@ -137,7 +158,7 @@ func c17NewFormat(kind string, pt uint8) format.Format {
 	}
 }
 
-var c17Kinds = []string{"h264", "av1", "vp8", "opus", "g711", "lpcm"}
+var c17Kinds = []string{"h264", "h264key", "h264key", "av1", "vp8", "opus", "g711", "lpcm"}
 
 // c17BuildStream draws 1–3 medias × 1–2 formats and returns the initialized stream + non-RTP sub stream.
 func c17BuildStream(t *rapid.T, queueSize int) (*Stream, *SubStream, []*c17Format) {
@@ -619,6 +640,12 @@ func c17ParseTag(kind string, p unit.Payload) (fi, n int, err error) {
 		return 0, 0, err
 	}
 	switch kind {
+	case "h264key":
+		// the tag sits in the last NAL unit (slice or IDR), whatever parameter sets precede it
+		if i := bytes.LastIndex(b, c17NALUSep); i >= 0 {
+			b = b[i+len(c17NALUSep):]
+		}
+		b = b[1:]
 	case "h264", "av1", "opus":
 		b = b[1:]
 	case "vp8":
